@@ -325,6 +325,10 @@ func main() {
 		}
 	}
 	fmt.Printf("%d scenarios, %d runs (%d with injected faults), second file system: %q, outcomes %v\n", nScen, evals, nFaultRuns, otherFS, labels)
+	os.RemoveAll(base) // os.Exit below skips deferred calls
+	if otherFS != "" {
+		os.RemoveAll(otherFS)
+	}
 	code, n := vcommon.Report("C18", viols)
 	vcommon.WriteEvidence(&vcommon.Evidence{PropertyID: "C18", Level: "fault_enumeration", Violations: n,
 		Coverage: map[string]any{
